@@ -92,6 +92,6 @@ def plan(tier):
     p.bound = "histories of %s imports, crash at any file-system call of the last one (or none), both crash models" % list(ks)
     p.not_covered = ("the HTTP handler composing imports ('every acknowledged import is present' when several imports were "
                      "made is a property of restore_snapshot_handler + this single-file store); real file systems")
-    p.per_harness_timeout = 600 if tier == "quick" else 1800
-    p.total_timeout = 1500 if tier == "quick" else 6000
+    p.per_harness_timeout = 900 if tier == 'quick' else 1800
+    p.total_timeout = 2700 if tier == 'quick' else 6000
     return p
